@@ -74,6 +74,14 @@ def validate_models():
         if got != want:
             raise HarnessError(f"primitive model mismatch on {s!r}: {got} vs {want}")
         n += 1
+    for s in strs[:600]:
+        out = list(P.explore(I, [], lambda: (P.m_capitalize(P.lift(s)), P.m_replace(P.lift(s), P.lift('A'), P.lift('zz')),
+                                             P.m_replace(P.lift(s), P.lift('a_'), P.lift('')))))
+        (ca, r1, r2) = out[0][1][1]
+        conc = lambda x: ''.join(chr(z3.simplify(c).as_long()) for c in x.cs)
+        if (conc(ca), conc(r1), conc(r2)) != (s.capitalize(), s.replace('A', 'zz'), s.replace('a_', '')):
+            raise HarnessError(f"primitive model mismatch (capitalize/replace) on {s!r}")
+        n += 1
     import re
     for pat in (r'[_-]', r'([A-Z])'):
         for s in strs[:400]:
